@@ -4,7 +4,7 @@
    its binary64 rounding, the envelope clamp and the nearest-endpoint fall-back are outside these units and are covered
    by the correspondence (props/C07.py, clause `proper point`). Z/M interpolation is ignored (unit values). *)
 From Coq Require Import ZArith Bool.
-From GeosV Require Import Lib.KernelDefs.
+From GeosV.Lib Require Import KernelDefs.
 Local Open Scope Z_scope.
 
 Definition unq (p : qpt) : pt := (qx p, qy p).
